@@ -113,12 +113,14 @@ CHECKS = {
     "C17": dict(
         technique="Lean 4 proof: matches = same type and field-wise agreement (iff), reflexive, transitive, "
                   "de-duplication preserves the matched set (induction over the fold); differential match/dedup ops "
-                  "over all patterns of a two-type universe",
+                  "over all patterns of a three-type universe (one with optional trailing parameters)",
         text="Kernel-checked: matches is exactly field-wise wildcarding, reflexive and transitive (equal arity per "
              "type); for every pattern list in any order with duplicates and chains, the de-duplicated listener "
              "matches exactly the commands matched by at least one pattern; never empty. Tied by exhaustive "
              "comparison of real matches() on all (pattern, command) pairs and of deduplicate_commands on pattern "
-             "lists, plus a fires-exactly-once check on real IndicationListener objects.",
+             "lists (complete commands that omit optional trailing parameters count as patterns), plus a fires-exactly-once check "
+             "on real IndicationListener objects and through ZBOSS.register_indication_listeners with one-shot waiters for the "
+             "same commands registered alongside.",
         note="values compared by ==; arity fixed per command type",
         design="7/C17"),
     "C04": dict(
@@ -236,8 +238,10 @@ CHECKS = {
              "lock and finishing, so no frame of another blocking request can be written while one is in progress; "
              "locks are served strictly first-in first-out; a request not marked blocking never touches the blocking "
              "lock; exclusivity holds in every state under every order of task micro-steps "
-             "(C14_exclusive_any_schedule). Tied by the virtual-time differential and by scenario checks that a non-blocking request is "
-             "written at once while a blocking one only waits for its response.",
+             "(C14_exclusive_any_schedule). Tied by the virtual-time differential, by scenario checks that a non-blocking request is "
+             "written at once while a blocking one only waits for its response, and by scenarios across a deliberate NCP reset "
+             "(real reset() / connect() with failing re-open attempts: requests that outlive the reset still exclude later ones; "
+             "reset / reconnect is observed on the implementation only, it is not an event of the model).",
         note=Q,
         design="7/C14"),
     "C20": dict(
@@ -254,9 +258,13 @@ CHECKS = {
              "are proved for every reachable state; hence at a quiescent point a running request waits for a pending ACK "
              "or response wait (C20_no_stranding), and after close, once the pending ACK wait's timer has fired and the loop "
              "has come to rest, every request has ended (C20_close_bounded); a response wait ends at the timer event that "
-             "reaches its deadline, link open, lost or closed (C20_response_wait_ends_at_deadline). Not a single theorem: "
-             "the loss clause as an induction over successive timer events (each step is proved).",
-        note=Q + "; termination by the response timeout after a loss: drain theorem + correspondence + monitor (partial)",
+             "reaches its deadline, link open, lost or closed (C20_response_wait_ends_at_deadline). The loss clause is a "
+             "theorem over successive timer expiries: a potential (2 per request that may still write or awaits an ACK, 1 "
+             "per other running request) never grows under task steps once the API has no uart and drops with every timer "
+             "expiry while a request runs, so after at most two expiries per request every request has ended "
+             "(C20_loss_requests_end_with_their_timers, C20_timer_expiry_makes_progress).",
+        note=Q + "; the theorems about successive events take quiescence of the event loop (`ready = []`) between events as a "
+             "hypothesis (the model's granularity; its sufficiency of `settle`'s fuel is not proved)",
         design="7/C20, 12.1"),
 }
 
